@@ -88,34 +88,76 @@ def as_bytes(p):
     return p.encode() if isinstance(p, str) else p
 
 
+def same_path(a, b):
+    """path equality; forks when a path is symbolic (allowed inside clauses)"""
+    if is_sym(a) or is_sym(b):
+        if not is_sym(a) and isinstance(a, bytes):
+            a = a.decode()
+        if not is_sym(b) and isinstance(b, bytes):
+            b = b.decode()
+        return bool(veq(a, b))
+    return as_bytes(a) == as_bytes(b)
+
+
+class Files:
+    """association list path -> content with (possibly symbolic) path comparison"""
+
+    def __init__(self):
+        self.items = []
+
+    def _find(self, p):
+        for k, (q, _) in enumerate(self.items):
+            if same_path(q, p):
+                return k
+        return None
+
+    def get(self, p, default=None):
+        k = self._find(p)
+        return default if k is None else self.items[k][1]
+
+    def set(self, p, v):
+        k = self._find(p)
+        if k is None:
+            self.items.append([p, v])
+        else:
+            self.items[k][1] = v
+
+    def pop(self, p, default=None):
+        k = self._find(p)
+        return default if k is None else self.items.pop(k)[1]
+
+
 def replay(trace, upto, cut, old, target):
     """Ghost filesystem state of `target` after the first `upto` events, the event number `upto` (if it is a write) having
     got `cut` of its bytes to the disk.  Returns (content or None, [problems])."""
-    files = {target: old} if old is not None else {}
-    closed = set()
+    files = Files()
+    if old is not None:
+        files.set(target, old)
+    closed = []
     problems = []
     for k, e in enumerate(trace[: upto + 1]):
         partial = k == upto
-        a = [as_bytes(x) if isinstance(x, (str, bytes)) else x for x in e.args]
+        a = e.args
         if e.name == "fs.create":
             if partial:
                 break
-            files[a[0]] = b""
+            files.set(a[0], b"")
         elif e.name == "fs.write":
             data = a[1][:cut] if partial else a[1]
-            files[a[0]] = files.get(a[0], b"") + data
+            files.set(a[0], files.get(a[0], b"") + data)
             if partial:
                 break
         elif e.name == "fs.close":
             if partial:
                 break
-            closed.add(a[0])
+            closed.append(a[0])
         elif e.name == "fs.rename":
             if partial:
                 break
-            if a[0] not in closed:
+            if not any(same_path(a[0], c) for c in closed):
                 problems.append("renamed before the temporary file was closed")
-            files[a[1]] = files.pop(a[0])
+            if not same_path(a[0], a[1]):
+                files.set(a[1], files.pop(a[0]))
         elif e.name == "fs.unlink":
             if partial:
                 break
@@ -172,7 +214,7 @@ class SetContent(Contract):
     ensures = dict(
         every_crash_point_old_or_new=lambda S: old_or_new(S, TARGET, S.i.content),
         new_content_on_return=_final,
-        target_touched_only_by_rename=lambda S: all(as_bytes(e.args[0]) != TARGET for e in S.trace if e.name != "fs.rename"),
+        target_touched_only_by_rename=lambda S: not any(same_path(e.args[0], TARGET) for e in S.trace if e.name != "fs.rename"),
     )
     canaries = [("with sib.open(\"w\") as f:", "for f in [sib.open(\"w\")]:", "every_crash_point_old_or_new"),
                 ("f.write(content)", "f.write(content[:-1])", "new_content_on_return"),
@@ -189,7 +231,7 @@ class PersistentSave(Contract):
     also = ["Persistent._saveTemp", "Persistent._getFilename"]
     differential = False
     inputs = dict(content=Bytes(alphabet=b"n", small_len=2), content2=Bytes(alphabet=b"m", small_len=1), old=Opt(Bytes(alphabet=b"o", small_len=1)),
-                  cut=Int(lo=0, small=[0, 1]), named=ForkBool(), tag=OneOf(None, "t"))
+                  cut=Int(lo=0, small=[0, 1]), named=ForkBool(), tag=Opt(Str(alphabet="2t-", small_len=1)))
     trusted = SetContent.trusted[:1] + ["the serializer (pickle.dump / jellyToSource) only writes to the file it is given: "
                                         "modelled as two writes of arbitrary bytes", "log.msg has no filesystem effect"]
 
@@ -214,9 +256,9 @@ class PersistentSave(Contract):
     def setup(self, i):
         p = sob.Persistent(object(), "app")
         fname = "/ghost/dir/app.tap" if i.named else None
-        final = fname or ("app-t.tap" if i.tag else "app.tap")
+        final = fname or ("app.tap" if i.tag is None or not i.tag else "app-" + i.tag + ".tap")
         return dict(fn=sob.Persistent.save, args=[p, i.tag, fname],
-                    ghost=dict(temp_exists=False, c1=i.content, c2=i.content2, final=as_bytes(final)))
+                    ghost=dict(temp_exists=False, c1=i.content, c2=i.content2, final=final))
 
     raises = ()
 
@@ -227,7 +269,7 @@ class PersistentSave(Contract):
         every_crash_point_old_or_new=lambda S: old_or_new(S, S.ghost["final"], PersistentSave._new(S)),
         new_content_on_return=lambda S: None if S.exc else (lambda r: band(not r[1], r[0] is not None and veq(r[0], PersistentSave._new(S))))(
             replay(S.trace, len(S.trace), 0, S.i.old, S.ghost["final"])),
-        target_touched_only_by_rename=lambda S: all(as_bytes(e.args[0]) != S.ghost["final"] for e in S.trace if e.name != "fs.rename"),
+        target_touched_only_by_rename=lambda S: not any(same_path(e.args[0], S.ghost["final"]) for e in S.trace if e.name != "fs.rename"),
     )
     canaries = [("self._saveTemp(filename, dumpFunc)", "self._saveTemp(finalname, dumpFunc)", "every_crash_point_old_or_new")]
 
